@@ -40,12 +40,27 @@ std::string run_sequence(const std::vector<int>& ops, int n, long& evals) {
     auto check = [&](size_t step) -> std::string {
         std::vector<int> got, gotc;
         int guard = 0;
+        std::vector<int> got_post, gotc_pre;
         for (auto it = g_list.begin(); it != g_list.end() && guard < 64; ++it, ++guard)
             got.push_back(it->id);
+        guard = 0;
+        for (auto it = g_list.begin(); it != g_list.end() && guard < 64; ++guard) {
+            auto cur = it++; // the value of a post-increment is the position before it
+            if (cur == g_list.end())
+                return "after step " + std::to_string(step) + ": iterator post-increment returned end() before the end";
+            got_post.push_back((*cur).id);
+        }
         const List& cl = g_list;
         guard = 0;
-        for (auto it = cl.begin(); it != cl.end() && guard < 64; it++, ++guard)
-            gotc.push_back((*it).id);
+        for (auto it = cl.begin(); it != cl.end() && guard < 64; ++guard) {
+            auto cur = it++;
+            if (cur == cl.end())
+                return "after step " + std::to_string(step) + ": const_iterator post-increment returned end() before the end";
+            gotc.push_back((*cur).id);
+        }
+        guard = 0;
+        for (auto it = cl.begin(); it != cl.end() && guard < 64; ++it, ++guard)
+            gotc_pre.push_back(it->id);
         ++evals;
         auto ls = [](const std::vector<int>& v) {
             std::string s = "(";
@@ -56,7 +71,11 @@ std::string run_sequence(const std::vector<int>& ops, int n, long& evals) {
         if (got != mo.order)
             return "after step " + std::to_string(step) + ": iteration gives " + ls(got) + ", expected " + ls(mo.order);
         if (gotc != mo.order)
-            return "after step " + std::to_string(step) + ": const iteration gives " + ls(gotc) + ", expected " + ls(mo.order);
+            return "after step " + std::to_string(step) + ": const iteration (it++) gives " + ls(gotc) + ", expected " + ls(mo.order);
+        if (got_post != mo.order)
+            return "after step " + std::to_string(step) + ": iteration with it++ gives " + ls(got_post) + ", expected " + ls(mo.order);
+        if (gotc_pre != mo.order)
+            return "after step " + std::to_string(step) + ": const iteration (++it) gives " + ls(gotc_pre) + ", expected " + ls(mo.order);
         if (g_list.size() != mo.order.size())
             return "after step " + std::to_string(step) + ": size() = " + std::to_string(g_list.size()) + ", expected " + std::to_string(mo.order.size());
         if (g_list.empty() != mo.order.empty())
